@@ -531,8 +531,6 @@ async def read_leaf(part, p: dict, raw_expect: bytes, blen: int, stats: dict) ->
 
     if api == "typed" and p["kind"] not in ("str", "json", "form"):
         api = "read_decode"
-    if api in ("lines_then_skip", "lines_then_read") and has_len:
-        api = "read"  # (a part with its own Content-Length is read by count; the line API does not keep that count)
     if api in ("readline", "lines_then_skip", "lines_then_read"):
         lines = raw_expect.split(b"\n")
         longest = max((len(x) for x in lines), default=0)
